@@ -3,6 +3,7 @@ package ast
 import "github.com/xjslang/xjs/token"
 
 func (cw *CodeWriter) AddMapping(pos token.Position) {
+	defer cw.vtracePos("AddMapping", pos.Line, pos.Column, "")()
 	if cw.Mapper == nil {
 		return
 	}
@@ -10,6 +11,7 @@ func (cw *CodeWriter) AddMapping(pos token.Position) {
 }
 
 func (cw *CodeWriter) AddNamedMapping(sourceLine, sourceColumn int, name string) {
+	defer cw.vtracePos("AddNamedMapping", sourceLine, sourceColumn, name)()
 	if cw.Mapper == nil {
 		return
 	}
